@@ -649,6 +649,16 @@ pub fn render_vidx(spec: &EnumSpec, ty_alias: &str, fn_name: &str) -> String {
 
 /// An expression constructing variant `vi` with the given field expressions.
 pub fn render_ctor(spec: &EnumSpec, vi: usize, fields: &[String]) -> String {
+    let inner = render_ctor_untyped(spec, vi, fields);
+    if spec.generics.is_empty() {
+        inner
+    } else {
+        // a value of a generic enum gets its type arguments spelled out (a unit variant alone cannot be inferred)
+        format!("vf_core::id::<{}{}>({})", spec.name, spec.generics_inst(), inner)
+    }
+}
+
+pub fn render_ctor_untyped(spec: &EnumSpec, vi: usize, fields: &[String]) -> String {
     let v = &spec.variants[vi];
     match &v.kind {
         Kind::Unit => format!("{}::{}", spec.name, v.ident),
